@@ -37,7 +37,9 @@ CHECKS = {
         "runs": [
             {"pkg": "internal/storage", "test": "TestVerif_C09"},
             {"pkg": "internal/spynode", "test": "TestVerif_C09Node", "shards": {"quick": 4, "thorough": 4}},
+            {"pkg": "internal/storage", "test": "TestVerif_C09Conc", "race": True},
         ],
+        "race_attrib": [r"storage\.\(\*BlockRepository\)\."],
     },
     "C05": {
         "level": "exploration",
@@ -209,7 +211,10 @@ CHECKS = {
         "level_note": "Trusted: the storage wrapper's images equal the back-end state after mutation i (atomic whole-key writes; torn writes not modelled), the DS engine's determinism for a fixed seed, the scripted peer of C01 for the convergence part.",
         "runs": [
             {"pkg": "internal/spynode", "test": "TestVerif_C10", "shards": {"quick": 6, "thorough": 16}},
+            {"pkg": "internal/spynode", "test": "TestVerif_C10Hostile"},
+            {"pkg": "internal/storage", "test": "TestVerif_C10Conc", "race": True},
         ],
+        "race_attrib": [r"storage\.\(\*BlockRepository\)\."],
     },
     "C19": {
         "level": "exploration",
